@@ -135,7 +135,7 @@ impl RResult {
         self.uncovered.is_empty()
     }
     pub fn pos_start(&self, ticker: &str, date: NaiveDate) -> Rat {
-        // position at start of `date`: pos_end*ratio of the last day strictly before; 0 if none
+        // position at the start of `date`, after that day's SPLIT/UNSPLIT and before its trades; 0 if none
         let Some(tr) = self.traces.get(ticker) else { return Rat::zero() };
         for t in tr {
             if t.date == date {
@@ -190,7 +190,10 @@ pub fn evaluate(txs: &[RTx]) -> RResult {
         let mut pos = Rat::zero();
         let mut tr = Vec::with_capacity(n);
         let mut uncovered_here = false;
+        // Within a day a SPLIT/UNSPLIT comes first (docs/spec.md "split applied before matching; disposal uses
+        // post-split quantities", enforced by fix 9568b9a): the day's trades are in post-split units.
         for i in 0..n {
+            pos = &pos * &dv[i].ratio;
             let pos_start = pos.clone();
             pos = &pos + &dv[i].b - &dv[i].s;
             if pos.is_neg() {
@@ -198,12 +201,11 @@ pub fn evaluate(txs: &[RTx]) -> RResult {
                 uncovered_here = true;
             }
             tr.push(DayTrace { date: dates[i], pos_start, pos_end: pos.clone(), pool_start: (Rat::zero(), Rat::zero()) });
-            pos = &pos * &dv[i].ratio;
         }
-        // unit factor between day i and day j>i : product of ratios of days i..j-1
+        // unit factor between day i and day j>i : product of ratios of days i+1..=j
         let u = |i: usize, j: usize| -> Rat {
             let mut r = Rat::one();
-            for k in i..j {
+            for k in (i + 1)..=j {
                 r *= &dv[k].ratio;
             }
             r
@@ -276,6 +278,7 @@ pub fn evaluate(txs: &[RTx]) -> RResult {
         let mut q = Rat::zero();
         let mut k = Rat::zero();
         for i in 0..n {
+            q *= &dv[i].ratio;
             tr[i].pool_start = (q.clone(), k.clone());
             if rem[i].is_pos() {
                 // covered => q >= rem (up to exactness); guard anyway
@@ -289,7 +292,6 @@ pub fn evaluate(txs: &[RTx]) -> RResult {
                 k += &add * &dv[i].c / &dv[i].b;
                 q += &add;
             }
-            q *= &dv[i].ratio;
         }
         for i in 0..n {
             if dv[i].s.is_pos() {
